@@ -291,6 +291,14 @@ func init() {
 		externWrites[n] = noWrites
 		externReads[n] = func(fn *ssa.Function) []hkey { return nil }
 	}
+	// bytes.Compare: an uninterpreted function of the two byte sequences (no lexicographic semantics - only that equal
+	// inputs give equal verdicts, which is what lets a contract name "the order of the payloads")
+	externs["bytes.Compare"] = func(f *Frame, b *ssa.BasicBlock, in *ssa.Call, args []Val, st *State, g string) Val {
+		f.e.note("assumed contract: bytes.Compare is a function of the two byte sequences (uninterpreted: bytes_cmp); no heap effect")
+		return Val{T: f.e.bytesCmp(st, args[0].T, args[1].T)}
+	}
+	externWrites["bytes.Compare"] = noWrites
+	externReads["bytes.Compare"] = func(fn *ssa.Function) []hkey { return nil }
 	// strconv: the two float conversions are uninterpreted functions of their arguments (no decimal semantics - C12)
 	externs["strconv.FormatFloat"] = func(f *Frame, b *ssa.BasicBlock, in *ssa.Call, args []Val, st *State, g string) Val {
 		e := f.e
@@ -541,6 +549,13 @@ func (e *Enc) fmtBytes(st *State, sl string) string {
 	e.declRaw("fmt_v_bytes", "(declare-fun fmt_v_bytes ((Array Int Int) Int Int) Str)")
 	h := e.arrHeap(types.Universe.Lookup("byte").Type())
 	return app("fmt_v_bytes", sel(st.H(h), app("s_arr", sl)), app("s_off", sl), app("s_len", sl))
+}
+
+// bytesCmp: bytes.Compare of two byte slices in state st, uninterpreted.
+func (e *Enc) bytesCmp(st *State, a, b string) string {
+	e.declRaw("bytes_cmp", "(declare-fun bytes_cmp ((Array Int Int) Int Int (Array Int Int) Int Int) Int)")
+	h := e.arrHeap(types.Universe.Lookup("byte").Type())
+	return app("bytes_cmp", sel(st.H(h), app("s_arr", a)), app("s_off", a), app("s_len", a), sel(st.H(h), app("s_arr", b)), app("s_off", b), app("s_len", b))
 }
 
 func (e *Enc) declText() {
